@@ -1,5 +1,6 @@
 """C10 - the PIN kept on disk always opens the device."""
 import ast
+import re
 from sa.model import AnalysisError, Unknown, norm, unwrap, EnumMember
 from sa.prov import Prov
 from sa.query import Facts, call_name, find_calls, defs_of, try_fold, calls_in, kwarg
@@ -270,6 +271,7 @@ def run(run):
 
     # ---------------------------------------------------------------- R4
     _policy(run, F, BASE)
+    _pin_states(run, PIN)
 
     # ---------------------------------------------------------------- R5
     run.rule("R5", "On the needs_change() branch every exit of _handle_bootloader is "
@@ -454,6 +456,179 @@ def _quantified(expr, pol=True):
     return tuple(q)
 
 
+def _pin_states(run, PIN):
+    """R8: the PIN object's state machine, one decision table per method."""
+    P, A = run.P, run.A
+    from sa.decide import Walker, cmp_parts, completions, subst
+    run.rule("R8", "State machine of FileBasedPin over (CH = _changing, NC = _needs_change), each method decided on its decision table: __init__ loads the stored PIN "
+             "(file content, stripped) when the PIN file exists and the configured default otherwise, sets NC = force_change or no file, CH = False; start_change does "
+             "nothing when CH or not NC, otherwise CH = True and _new_pin = generate_pin(); get_new_pin answers _new_pin iff CH (None otherwise); commit_change does "
+             "nothing when not CH, otherwise writes _new_pin to the PIN path and then _pin = _new_pin, _new_pin = None, CH = False, NC = False; abort_change does "
+             "nothing when not CH, otherwise _new_pin = None, CH = False (and leaves _pin, NC alone); needs_change answers NC, get_pin answers _pin.")
+
+    noret = {}
+
+    def table(mname, atoms_extra=None, through_with=True):
+        fn = P.method(PIN, mname)
+        g = A.cfg(fn, PIN)
+
+        def atom(e):
+            if isinstance(e, ast.Attribute) and isinstance(e.value, ast.Name) and e.value.id == "self" and e.attr in ("_changing", "_needs_change"):
+                return ("CH" if e.attr == "_changing" else "NC", True)
+            if atoms_extra is not None:
+                return atoms_extra(e, fn)
+            return None
+        out = []
+        W = Walker(A, fn, PIN, atom, max_leaves=128, through_with=through_with)
+        for lf in W.walk(g.entry):
+            # a call of a method of the class that never returns (`self._error(msg)`: log and raise) ends the path
+            dead = False
+            for k_, st_, v_ in lf.effects:
+                if k_ == "expr" and isinstance(v_, ast.Call) and isinstance(v_.func, ast.Attribute) and isinstance(v_.func.value, ast.Name) and v_.func.value.id == "self":
+                    r_ = PIN.lookup(v_.func.attr)
+                    if r_ is not None and r_[1] == "method" and r_[2].qualname not in noret:
+                        m_ = r_[2]
+                        gm_ = A.cfg(m_, PIN)
+                        try:
+                            noret[m_.qualname] = all(l_.kind == "raise" for l_ in Walker(A, m_, PIN, lambda e: None, max_leaves=32).walk(gm_.entry))
+                        except AnalysisError:
+                            noret[m_.qualname] = False
+                    if r_ is not None and r_[1] == "method" and noret.get(r_[2].qualname):
+                        dead = True
+            if dead:
+                out.append((lf, dict(lf.pc), [], [], "raise"))
+                continue
+            stores = []
+            for k_, st_, v_ in lf.effects:
+                if k_ == "assign":
+                    for t_ in st_.targets:
+                        if isinstance(t_, ast.Attribute) and isinstance(t_.value, ast.Name) and t_.value.id == "self":
+                            stores.append((t_.attr, _strip(norm(lf.deep(st_.value)))))
+            calls = [_strip(norm(lf.deep(v_))) for k_, st_, v_ in lf.effects if k_ in ("expr", "with") and isinstance(v_, ast.Call) and call_name(v_) not in ("info", "debug", "error", "warning")]
+            ret = None
+            if lf.kind == "return":
+                ret = _strip(norm(lf.deep(lf.node.ast.value))) if lf.node.ast.value is not None else "None"
+            elif lf.kind == "exit":
+                ret = "None"
+            out.append((lf, dict(lf.pc), stores, calls, ret if lf.kind in ("return", "exit") else lf.kind))
+        return fn, out
+
+    def expect(mname, fn, rows, atoms, want):
+        n = 0
+        for lf, pc, stores, calls, ret in rows:
+            unknown = sorted(k[1:] for k in pc if isinstance(k, str) and k.startswith("?"))
+            where = fn.loc(lf.node.ast) if lf.node.ast is not None else fn.loc()
+            run.check("R8", not unknown, f"{mname} decides on the change state only", key=f"FileBasedPin.{mname}|extra|{';'.join(unknown)[:50]}", where=where,
+                      message=f"FileBasedPin.{mname} decides on `{'`, `'.join(unknown)[:100]}`, which is not part of the PIN change state")
+            if unknown:
+                continue
+            for val in completions({k: b for k, b in pc.items() if k in atoms}, atoms):
+                n += 1
+                w = want(val)
+                got = (sorted(stores), calls, ret)
+                desc = ", ".join(f"{a}={'T' if val[a] else 'F'}" for a in atoms)
+                run.check("R8", got == (sorted(w[0]), w[1], w[2]) and all(a in pc for a in w[3]), f"{mname} [{desc}]", key=f"FileBasedPin.{mname}|{desc}", where=where,
+                          message=f"FileBasedPin.{mname}, case [{desc}]: stores {sorted(stores)}, calls {calls}, result `{ret}`; the PIN change protocol requires stores {sorted(w[0])}, "
+                                  f"calls {w[1]}, result `{w[2]}` (deciding on {w[3]}): the PIN in use, the pending PIN or the need to change it would get out of step with the device")
+        run.floor("R8", f"cases of FileBasedPin.{mname}", n, 1)
+
+    fn, rows = table("start_change")
+    expect("start_change", fn, rows, ["CH", "NC"],
+           lambda v: ([], [], "None", ["CH"] if v["CH"] else ["CH", "NC"]) if (v["CH"] or not v["NC"]) else ([("_changing", "True"), ("_new_pin", "self.generate_pin()")], [], "None", ["CH", "NC"]))
+    fn, rows = table("get_new_pin")
+    expect("get_new_pin", fn, rows, ["CH"], lambda v: ([], [], "self._new_pin" if v["CH"] else "None", ["CH"]))
+    fn, rows = table("abort_change")
+    expect("abort_change", fn, rows, ["CH"], lambda v: ([("_changing", "False"), ("_new_pin", "None")] if v["CH"] else [], [], "None", ["CH"]))
+    fn, rows = table("needs_change")
+    expect("needs_change", fn, rows, [], lambda v: ([], [], "self._needs_change", []))
+    fn, rows = table("get_pin")
+    expect("get_pin", fn, rows, [], lambda v: ([], [], "self._pin", []))
+    # commit_change: the write and the state update (R2 / R7 decide the order and the mode of the write)
+    fn, rows = table("commit_change")
+    n = 0
+    for lf, pc, stores, calls, ret in rows:
+        where = fn.loc(lf.node.ast) if lf.node.ast is not None else fn.loc()
+        unknown = sorted(k[1:] for k in pc if isinstance(k, str) and k.startswith("?"))
+        run.check("R8", not unknown, "commit_change decides on the change state only", key=f"FileBasedPin.commit_change|extra|{';'.join(unknown)[:50]}", where=where,
+                  message=f"FileBasedPin.commit_change decides on `{'`, `'.join(unknown)[:100]}`")
+        if unknown:
+            continue
+        n += 1
+        ch = pc.get("CH")
+        if ch is False:
+            ok = not stores and not calls and ret == "None"
+            w = "nothing (no change in progress)"
+        else:
+            want_st = sorted([("_pin", "self._new_pin"), ("_new_pin", "None"), ("_changing", "False"), ("_needs_change", "False")])
+            wrote = [c for c in calls if re.fullmatch(r"\w+\.write\(self\._new_pin\)", c) or ".write(self._new_pin)" in c]
+            to_path = any(c.startswith("open(self._path,") for c in calls) or any(c.startswith("os.replace(") and c.rstrip(")").endswith("self._path") for c in calls)
+            ok = ch is True and sorted(stores) == want_st and len(wrote) >= 1 and to_path and ret == "None" \
+                and [s_[0] for s_ in stores].index("_pin") < [s_[0] for s_ in stores].index("_new_pin")
+            w = f"write _new_pin to the PIN path (self._path), then {want_st}"
+        run.check("R8", ok and set(k for k in pc) <= {"CH"}, f"commit_change [CH={'T' if ch else 'F'}]", key=f"FileBasedPin.commit_change|{ch}", where=where,
+                  message=f"FileBasedPin.commit_change, case [CH={ch}]: stores {stores}, calls {calls[:3]}, result `{ret}`; expected {w}")
+    run.floor("R8", "cases of FileBasedPin.commit_change", n, 2)
+    # __init__
+    ini = P.method(PIN, "__init__")
+    pathp, defp, forcep = ini.params[1], ini.params[2], ini.params[3]
+
+    def ini_atoms(e, fn):
+        x = e
+        if isinstance(x, ast.Name) and x.id == forcep:
+            return ("FORCE", True)
+        if isinstance(x, ast.Call) and _strip(norm(x)) == f"os.path.isfile({pathp})":
+            return ("EXISTS", True)
+        if isinstance(x, ast.Call) and call_name(x) == "is_valid":
+            return ("VALID", True)
+        return None
+    fn, rows = table("__init__", ini_atoms)
+    n = 0
+    for lf, pc, stores, calls, ret in rows:
+        where = fn.loc(lf.node.ast) if lf.node.ast is not None else fn.loc()
+        unknown = sorted(k[1:] for k in pc if isinstance(k, str) and k.startswith("?"))
+        run.check("R8", not unknown, "__init__ decides on the file's existence, the PIN's validity and force_change only", key=f"FileBasedPin.__init__|extra|{';'.join(unknown)[:50]}", where=where,
+                  message=f"FileBasedPin.__init__ decides on `{'`, `'.join(unknown)[:100]}`")
+        if unknown or ret in ("raise",):
+            continue
+        ex = pc.get("EXISTS")
+        st = dict(stores)
+        n += 1
+        want_pin = "file.read().strip()" if ex else defp
+        pin_src = st.get("_pin", "")
+        okp = (ex is True and re.fullmatch(rf"open\({pathp}, 'rb?'\)\.read\(\)\.strip\(\)", pin_src) is not None) or (ex is False and pin_src == defp)
+        for val in completions({k: b for k, b in pc.items() if k == "FORCE"}, ["FORCE"]):
+            want_nc = "True" if (val["FORCE"] or not ex) else "False"
+            nc = st.get("_needs_change", "")
+            # force_change or not exists, written with the atoms decided on this path
+            def bev(e_):
+                # the stored flag as a boolean expression over force_change and the file's existence
+                if isinstance(e_, ast.Constant) and isinstance(e_.value, bool):
+                    return e_.value
+                if isinstance(e_, ast.Name) and e_.id == forcep:
+                    return val["FORCE"]
+                if isinstance(e_, ast.Call) and _strip(norm(e_)) == f"os.path.isfile({pathp})":
+                    return ex
+                if isinstance(e_, ast.UnaryOp) and isinstance(e_.op, ast.Not):
+                    x_ = bev(e_.operand)
+                    return None if x_ is None else not x_
+                if isinstance(e_, ast.BoolOp):
+                    xs_ = [bev(x_) for x_ in e_.values]
+                    if any(x_ is None for x_ in xs_):
+                        return None
+                    return all(xs_) if isinstance(e_.op, ast.And) else any(xs_)
+                return None
+            try:
+                okn = bev(ast.parse(nc, mode="eval").body) is (want_nc == "True")
+            except SyntaxError:
+                okn = False
+            run.check("R8", ex is not None and okp and okn and st.get("_changing") == "False" and pc.get("VALID") is True,
+                      f"__init__ [file {'exists' if ex else 'missing'}, force_change={val['FORCE']}]", key=f"FileBasedPin.__init__|{ex}|{val['FORCE']}", where=where,
+                      message=f"FileBasedPin.__init__, case [PIN file {'exists' if ex else 'missing'}, force_change={val['FORCE']}]: _pin = `{pin_src}`, _needs_change = `{nc}`, "
+                              f"_changing = `{st.get('_changing')}`, validity checked: {pc.get('VALID')}; expected _pin = {'the stripped file content' if ex else 'the default PIN'}, "
+                              f"_needs_change = {want_nc}, _changing = False, after is_valid(_pin): the manager would unlock with, or overwrite, the wrong PIN")
+    run.floor("R8", "cases of FileBasedPin.__init__", n, 2)
+
+
 def _policy(run, F, BASE, rid="R4"):
     P, A = run.P, run.A
     run.rule(rid, "generate_pin returns only a value accepted by is_valid (full policy, no any_pin); "
@@ -547,6 +722,65 @@ def _policy(run, F, BASE, rid="R4"):
                       message=f"is_valid can return a non-False value ({tag} branch, `{norm(v)[:60]}`) "
                               f"without having established: {sorted(missing)}"
                               + (f"; weaker/unrecognised predicate(s) used instead: {weak}" if weak else ""))
+    # ... and the converse: is_valid rejects nothing else (a PIN the policy allows - or, with any_pin, any alphanumeric bytes - is accepted)
+    from sa.decide import Walker, cmp_parts, completions
+
+    def patom(e):
+        cp = cmp_parts(e)
+        if cp is not None:
+            l, op, r = cp
+            if op in ("==", "!=") and norm(l) == f"type({pin})" and norm(r) == "bytes":
+                return ("TYPE", op == "==")
+            if op in ("==", "!=") and norm(l) == f"len({pin})":
+                ok_, v_ = try_fold(P, r, isv, BASE)
+                if ok_ and v_ == 8:
+                    return ("LEN", op == "==")
+        if isinstance(e, ast.Name) and e.id == anyp:
+            return ("ANY", True)
+        if isinstance(e, ast.Call) and call_name(e) == "isinstance" and len(e.args) == 2 and norm(e.args[0]) == pin and norm(e.args[1]) == "bytes":
+            return ("TYPE", True)
+        for pol_ in (True,):
+            q = _quantified(e, pol_)
+            if q and norm(q[3]) == pin:
+                if q[0] == "all" and _is_member_test(run, q[2], q[1], BASE, "POSSIBLE_CHARS"):
+                    return ("CHARSET", True)
+                if q[0] == "any" and _is_member_test(run, q[2], q[1], BASE, "ALPHA_CHARS"):
+                    return ("ALPHA", True)
+        return None
+    PATOMS = ["TYPE", "CHARSET", "ANY", "LEN", "ALPHA"]
+    ncomp = 0
+    Wp = Walker(A, isv, BASE, patom, max_leaves=256)
+    for lf in Wp.walk(gv.entry):
+        if lf.kind != "return" or lf.node.ast.value is None:
+            continue
+        unknown = sorted(k[1:] for k in lf.pc if isinstance(k, str) and k.startswith("?"))
+        v_ = lf.deep(lf.node.ast.value)
+
+        def bev(e_, val):
+            if isinstance(e_, ast.Constant):
+                return bool(e_.value)
+            if isinstance(e_, ast.UnaryOp) and isinstance(e_.op, ast.Not):
+                x_ = bev(e_.operand, val)
+                return None if x_ is None else not x_
+            if isinstance(e_, ast.BoolOp):
+                xs_ = [bev(x_, val) for x_ in e_.values]
+                if isinstance(e_.op, ast.And):
+                    return False if any(x_ is False for x_ in xs_) else (None if any(x_ is None for x_ in xs_) else True)
+                return True if any(x_ is True for x_ in xs_) else (None if any(x_ is None for x_ in xs_) else False)
+            a_ = patom(e_)
+            return (val[a_[0]] == a_[1]) if a_ is not None else None
+        if unknown:
+            continue        # the `must` half above names what such a condition fails to establish
+        for val in completions({k: b for k, b in lf.pc.items() if k in PATOMS}, PATOMS):
+            got = bev(v_, val)
+            want_ = val["TYPE"] and val["CHARSET"] and (val["ANY"] or (val["LEN"] and val["ALPHA"]))
+            ncomp += 1
+            if want_ and got is not True:
+                desc = ", ".join(f"{a}={'T' if val[a] else 'F'}" for a in PATOMS)
+                run.check(rid, False, "is_valid accepts what the policy allows", key=f"BasePin.is_valid|rejects|{desc}", where=isv.loc(lf.node.ast),
+                          message=f"is_valid, case [{desc}]: returns `{norm(v_)[:50]}` ({got}) for a PIN the policy allows" + (" once any_pin is given" if val["ANY"] else "") +
+                                  ": the operator's (or the generated) PIN would be refused and the operation not carried out")
+    run.floor(rid, "is_valid acceptance cases", ncomp, 16)
     # any_pin only by explicit parameter, default False
     d = isv.node.args.defaults
     run.check(rid, anyp == "any_pin" and len(d) == 1 and isinstance(d[0], ast.Constant) and d[0].value is False,
